@@ -39,6 +39,8 @@ val nth : nat -> 'a1 list -> 'a1 -> 'a1
 
 val nth_error : 'a1 list -> nat -> 'a1 option
 
+val rev : 'a1 list -> 'a1 list
+
 val map : ('a1 -> 'a2) -> 'a1 list -> 'a2 list
 
 val flat_map : ('a1 -> 'a2 list) -> 'a1 list -> 'a2 list
@@ -47,6 +49,8 @@ val fold_left : ('a1 -> 'a2 -> 'a1) -> 'a2 list -> 'a1 -> 'a1
 
 val fold_right : ('a2 -> 'a1 -> 'a1) -> 'a1 -> 'a2 list -> 'a1
 
+val existsb : ('a1 -> bool) -> 'a1 list -> bool
+
 val forallb : ('a1 -> bool) -> 'a1 list -> bool
 
 val filter : ('a1 -> bool) -> 'a1 list -> 'a1 list
@@ -54,6 +58,10 @@ val filter : ('a1 -> bool) -> 'a1 list -> 'a1 list
 val combine : 'a1 list -> 'a2 list -> ('a1 * 'a2) list
 
 val firstn : nat -> 'a1 list -> 'a1 list
+
+val skipn : nat -> 'a1 list -> 'a1 list
+
+val seq : nat -> nat -> nat list
 
 val repeat : 'a1 -> nat -> 'a1 list
 
@@ -156,11 +164,13 @@ module Z :
   val ggcd : z -> z -> z * (z * z)
  end
 
-val pow_pos : ('a1 -> 'a1 -> 'a1) -> 'a1 -> positive -> 'a1
+val zeq_bool : z -> z -> bool
 
 type q = { qnum : z; qden : positive }
 
 val inject_Z : z -> q
+
+val qeq_bool : q -> q -> bool
 
 val qle_bool : q -> q -> bool
 
@@ -175,10 +185,6 @@ val qminus : q -> q -> q
 val qinv : q -> q
 
 val qdiv : q -> q -> q
-
-val qpower_positive : q -> positive -> q
-
-val qpower : q -> z -> q
 
 val qred : q -> q
 
@@ -325,6 +331,10 @@ val status_of : cfg -> 'a1 row store -> 'a1 cand -> z
 
 val value_of : cfg -> 'a1 row store -> 'a1 cand -> q
 
+val qpow : q -> nat -> q
+
+val qnat : nat -> q
+
 val batch_thr : cfg -> q -> 'a1 cand list -> q
 
 val new_thr : cfg -> 'a1 row store -> 'a1 cand -> 'a1 cand list -> q
@@ -362,8 +372,6 @@ type 'p archive = { a_store : 'p row store; a_sum : q; a_stats : stats;
 val stats0 : stats
 
 val arch_init : cfg -> 'a1 archive
-
-val qnat : nat -> q
 
 val stats_update :
   cfg -> 'a1 archive -> 'a1 row store -> q -> nat -> 'a1 archive
@@ -428,3 +436,93 @@ val arch_op : cfg -> z archive -> sx -> z archive * sx
 val arch_ops : cfg -> z archive -> sx list -> sx list
 
 val run_ARCH : sx -> sx
+
+val insert_by :
+  ('a1 -> 'a1 -> bool) -> (nat -> 'a1) -> nat -> nat list -> nat list
+
+val stable_sort_by :
+  ('a1 -> 'a1 -> bool) -> (nat -> 'a1) -> nat list -> nat list
+
+val getq : q list -> nat -> q
+
+val argsort : q list -> nat list
+
+val lexsort : q list list -> nat -> nat list
+
+val flip : 'a1 list -> 'a1 list
+
+val zipwith : ('a1 -> 'a2 -> 'a3) -> 'a1 list -> 'a2 list -> 'a3 list
+
+val dot : q list -> q list -> q
+
+type archive0 = { a_lower : q list; a_upper : q list;
+                  a_density : (q list list -> q list) option }
+
+type data0 = { d_objective : q list; d_measures : q list list }
+
+type add_info = { i_status : z list; i_value : q list; i_novelty : q list }
+
+type values =
+| V1 of q list
+| V2 of (q * q) list
+
+type kind =
+| Imp
+| TwoImp
+| RD
+| TwoRD
+| Obj
+| TwoObj
+| Nov
+| Density
+
+type ranker = { r_kind : kind; r_dir : q list option; r_rng : q list }
+
+val new_ranker : kind -> q list -> ranker
+
+val is_rd : kind -> bool
+
+val single_stage : q list -> nat list * values
+
+val two_stage : z list -> q list -> (nat list * values) result
+
+val projections : q list list -> q list -> q list result
+
+val rank :
+  ranker -> archive0 -> data0 -> add_info -> (nat list * values) result
+
+val reset : ranker -> archive0 -> ranker result
+
+val set_dir : ranker -> q list -> ranker
+
+val batch_size : values -> nat
+
+val key_at : values -> nat -> q * q
+
+val at_least_as_good_b : kind -> (q * q) -> (q * q) -> bool
+
+val is_perm_b : nat list -> nat -> bool
+
+val adjacent_b : ('a1 -> 'a1 -> bool) -> 'a1 list -> bool
+
+val sorted_b : kind -> values -> nat list -> bool
+
+val c17_err_code : err -> z
+
+val c17_dkind : sx -> kind option
+
+val c17_dpair : sx -> (q * q) option
+
+val c17_dvalues : sx -> values option
+
+val c17_evalues : values -> sx
+
+val c17_edir : ranker -> sx
+
+val c17_darchive : sx -> sx -> sx -> archive0 option
+
+val c17_op : ranker -> sx -> ranker * sx
+
+val c17_ops : ranker -> sx list -> sx list
+
+val run_C17 : sx -> sx
